@@ -23,6 +23,9 @@
 (* even with as many workers as chains.  ColdStartPerChain (the chain      *)
 (* clears the tables when it starts) makes the chain's result independent  *)
 (* of that; without it such a chain is "tainted" (finding F16).            *)
+(* RaceChoice: a numerical routine chosen by timing two alternatives at    *)
+(* run time makes a chain's result depend on an outcome the seed does not  *)
+(* determine (modelled as a free choice when the chain starts).            *)
 (* Deviations: SharedStream (all chains draw from the parent generator),   *)
 (* StreamPerWorker (streams assigned per worker slot, W < K workers),      *)
 (* LazyLoad (the loader's draws happen concurrently with the chains).      *)
@@ -33,7 +36,8 @@ CONSTANTS K,             \* chains 0..K-1
           W,             \* worker slots (processes that can run at once)
           PreDraws,      \* draws the loader takes from the parent generator before the chains exist
           SharedStream, StreamPerWorker, LazyLoad,
-          ColdStartPerChain  \* TRUE: run_phyclone_chain clears the process-global memo tables first (as fixed); FALSE: deviation
+          ColdStartPerChain, \* TRUE: run_phyclone_chain clears the process-global memo tables first (as fixed); FALSE: deviation
+          RaceChoice         \* FALSE as implemented (the convolution routine is fixed by the grid size); TRUE: chosen by a timing race
 Chain == 0..(K - 1)
 Main == K + 100        \* identifier of the parent stream
 VARIABLES pos,       \* per stream: next position
@@ -44,17 +48,18 @@ VARIABLES pos,       \* per stream: next position
           loaded,    \* number of loader draws taken so far
           slot,      \* chain -> worker process executing it (0 = none yet)
           used,      \* worker processes that have executed a chain
-          tainted    \* chains that started on warm process-global tables
-vars == <<pos, trace, running, done, results, loaded, slot, used, tainted>>
+          tainted,   \* chains that started on warm process-global tables
+          routine    \* chain -> numerical routine in use ("fixed", or the winner of a race)
+vars == <<pos, trace, running, done, results, loaded, slot, used, tainted, routine>>
 StreamOf(c) == IF SharedStream \/ K = 1 THEN Main ELSE IF StreamPerWorker THEN c % W ELSE c
 Streams == {StreamOf(c) : c \in Chain} \cup {Main}
 Init == /\ pos = [s \in Streams |-> 1] /\ trace = [c \in Chain |-> <<>>]
         /\ running = {} /\ done = <<>> /\ results = << >> /\ loaded = 0
-        /\ slot = [c \in Chain |-> 0] /\ used = {} /\ tainted = {}
+        /\ slot = [c \in Chain |-> 0] /\ used = {} /\ tainted = {} /\ routine = [c \in Chain |-> "fixed"]
 \* load_data: the loader's draws come first (unless LazyLoad)
 Load == /\ loaded < PreDraws
         /\ pos' = [pos EXCEPT ![Main] = @ + 1] /\ loaded' = loaded + 1
-        /\ UNCHANGED <<trace, running, done, results, slot, used, tainted>>
+        /\ UNCHANGED <<trace, running, done, results, slot, used, tainted, routine>>
 Loaded == LazyLoad \/ loaded = PreDraws
 Finished == {done[j] : j \in 1..Len(done)}
 Start(c) == /\ Loaded /\ c \notin running /\ c \notin Finished /\ trace[c] = <<>> /\ Cardinality(running) < W
@@ -62,20 +67,21 @@ Start(c) == /\ Loaded /\ c \notin running /\ c \notin Finished /\ trace[c] = <<>
                    /\ slot' = [slot EXCEPT ![c] = w]
                    /\ used' = used \cup {w}
                    /\ tainted' = (IF w \in used /\ ~ColdStartPerChain THEN tainted \cup {c} ELSE tainted)
+            /\ \E r \in (IF RaceChoice THEN {"fixed", "other"} ELSE {"fixed"}) : routine' = [routine EXCEPT ![c] = r]
             /\ running' = running \cup {c} /\ UNCHANGED <<pos, trace, done, results, loaded>>
 Step(c) == /\ c \in running /\ Len(trace[c]) < Steps
            /\ LET s == StreamOf(c) IN
                 /\ trace' = [trace EXCEPT ![c] = Append(@, <<s, pos[s]>>)]
                 /\ pos' = [pos EXCEPT ![s] = @ + 1]
-           /\ UNCHANGED <<running, done, results, loaded, slot, used, tainted>>
+           /\ UNCHANGED <<running, done, results, loaded, slot, used, tainted, routine>>
 Finish(c) == /\ c \in running /\ Len(trace[c]) = Steps
              /\ running' = running \ {c} /\ done' = Append(done, c)
              /\ results' = (c :> trace[c]) @@ results
-             /\ UNCHANGED <<pos, trace, loaded, slot, used, tainted>>
+             /\ UNCHANGED <<pos, trace, loaded, slot, used, tainted, routine>>
 Next == Load \/ \E c \in Chain : Start(c) \/ Step(c) \/ Finish(c)
 AllDone == Len(done) = K /\ loaded = PreDraws
 Expected(c) == IF K = 1 THEN [j \in 1..Steps |-> <<Main, PreDraws + j>>] ELSE [j \in 1..Steps |-> <<c, j>>]
-ScheduleIndependence == AllDone => \A c \in Chain : results[c] = Expected(c) /\ c \notin tainted
+ScheduleIndependence == AllDone => \A c \in Chain : results[c] = Expected(c) /\ c \notin tainted /\ routine[c] = "fixed"
 KeyedByChain == \A c \in DOMAIN results : c \in Chain /\ Len(results[c]) = Steps
 NoSharedDraw == \A c1, c2 \in Chain : c1 # c2 => \A i \in 1..Len(trace[c1]), j \in 1..Len(trace[c2]) : trace[c1][i] # trace[c2][j]
 =============================================================================
